@@ -9,6 +9,7 @@ import core
 import c12_lib as L
 
 KINDS = ("shifted", "normal", "nonnormal", "spd", "orthogonal", "triangular")
+SPREAD_KINDS = ("outliers", "outliers_nonnormal", "graded", "clustered")       # widely spread spectra, condition numbers up to 1e4
 
 
 def make_matrix(rs, n, cplx, kind, kappa):
@@ -17,6 +18,25 @@ def make_matrix(rs, n, cplx, kind, kappa):
         v = rs.uniform(0.5, 2.0) * rs.choice([-1.0, 1.0])
         return np.array([[v + (1j * rs.uniform(-1, 1) if cplx else 0)]])
     Q = L.rand_unitary(rs, n, cplx)
+    if kind in SPREAD_KINDS:
+        unit = (lambda k: np.exp(1j * rs.uniform(0, 2 * np.pi, size=k))) if cplx else (lambda k: rs.choice([-1.0, 1.0], size=k))
+        if kind.startswith("outliers"):        # a bulk in [1, 3] and 1-3 eigenvalues 300-1000 times larger
+            mod = rs.uniform(1, 3, size=n)
+            idx = rs.choice(n, size=min(n - 1, int(rs.integers(1, 4))), replace=False)
+            mod[idx] = mod[idx] * kappa / 3 * rs.uniform(0.5, 1.0, size=len(idx))
+        elif kind == "graded":                 # geometrically graded moduli 1 .. kappa
+            mod = kappa ** (np.arange(n) / (n - 1))
+        else:                                  # two or three tight clusters spread over 1 .. kappa
+            cl = int(rs.integers(2, 4))
+            mod = (kappa ** (np.arange(cl) / (cl - 1)))[rs.integers(0, cl, size=n)] * (1 + 1e-2 * rs.random(n))
+        lam = mod * unit(n)
+        if kind == "outliers_nonnormal":
+            S = np.eye(n) + 0.3 * np.triu(rs.normal(size=(n, n)), 1) / np.sqrt(n)
+            A = Q @ S @ np.diag(lam) @ np.linalg.inv(S) @ Q.conj().T
+        else:
+            A = (Q * lam) @ Q.conj().T
+        A = A * 10.0 ** rs.uniform(-1, 1)
+        return A if cplx else np.real(A)
     sv = kappa ** (np.sort(rs.random(n)))
     sv[0], sv[-1] = 1.0, kappa
     if kind == "spd":
@@ -76,19 +96,23 @@ HEADER = ("From Coq Require Import List Bool Arith NArith PrimFloat.\nFrom Core 
           "Import ListNotations.\nOpen Scope float_scope.\n")
 
 
-def coq_case(case, obs, sysname, flag):
+def coq_case(case, obs, sysname, flags):
     cplx = case["cplx"]
     B = case["B"]
     X0 = case["X0"] if case["X0"] is not None else np.zeros_like(B)
     X = obs["x"]
     scales = [float(np.max(np.abs(X[:, j]))) for j in range(X.shape[1])]
-    return ("{| gA := %s_A; gB := %s; gX0 := %s; gtol := %s; gm := %d%%N; gflag := %s;\n"
+    fl = model_flags(flags)
+    tf = lambda v: "true" if v else "false"
+    mfac = (10 * case["tol"]) if flags.get("gmres_mask_tol", True) else 10 * 2.220446049250313e-16      # zero_thresh = 10 * tol * overall_max
+    return ("{| gA := %s_A; gB := %s; gX0 := %s; gtol := %s; gmfac := %s; gm := %d%%N; gflag := %s; gfpad := %s; gfself := %s; gfzero := %s;\n"
             "   geX := %s; geScale := %s; geSteps := %d%%N |}"
-            % (sysname, L.cols(B, cplx), L.cols(X0, cplx), L.sc(case["tol"], cplx), case["m"], "true" if flag else "false",
+            % (sysname, L.cols(B, cplx), L.cols(X0, cplx), L.sc(case["tol"], cplx), L.sc(mfac, cplx), case["m"], tf(fl["gmres_square_H"]),
+               tf(fl["arnoldi_padding"]), tf(fl["arnoldi_breakdown_continues"]), tf(fl["gmres_zero_residual_nan"]),
                L.cols(X, cplx), "[" + ";".join(L.fl(s) for s in scales) + "]", obs["steps"]))
 
 
-def eval_in_coq(name, items, flag, shard=100, timeout=900):
+def eval_in_coq(name, items, flags, shard=100, timeout=900):
     """items: list of (case, obs). Returns (failing indices, error or None)."""
     jobs, index = [], []
     for cplx in (False, True):
@@ -102,7 +126,7 @@ def eval_in_coq(name, items, flag, shard=100, timeout=900):
                 if key not in systems:
                     systems[key] = "s%d" % len(systems)
                     body.append("Definition %s_A := %s.\n" % (systems[key], L.mat_rows(c["A"], cplx)))
-                terms.append(coq_case(c, o, systems[key], flag))
+                terms.append(coq_case(c, o, systems[key], flags))
             ty = "cpx" if cplx else "float"
             text = HEADER + "".join(body) + "Definition cases : list (gcase %s) := [\n" % ty + ";\n".join(terms) + "].\n"
             text += "Eval vm_compute in (length cases, %s cases).\n" % ("failing_cplx" if cplx else "failing_real")
@@ -150,18 +174,19 @@ def ls_optimum(A, b, x0, m):
     return x, float(np.linalg.norm(b - A @ x)), K.shape[1]
 
 
-def overrun_columns(case):
-    """per column: does the (binary64 reference) Arnoldi loop take further steps after this column's own breakdown
-    (new vector below the clip tol/2) or convergence (norm <= tol*H[1,0])?  It does when max_iters allows it and
-    either the stopping test is blind (first step) or another column keeps the batched loop alive.  Input-only."""
+def diagnostics(case, flags):
+    """input-only diagnostics of the binary64 reference recurrence at the probed flag vector, per column:
+    overrun (further steps after the column's own breakdown/convergence), lastsub (relative size of H[m, m-1]),
+    masked_genuine (a filled column of H falls under the padding mask 10*tol*max|H|), abs_clip (a remainder that is not small
+    relative to ||A q_0|| falls under the absolute tol/2), steps."""
     B = case["B"]
+    nc = B.shape[1]
     X0 = case["X0"] if case["X0"] is not None else np.zeros_like(B)
     try:
         with np.errstate(all="ignore"):
-            ref = ref_gmres(case["A"], B, X0, case["m"], case["tol"], np.complex128 if case["cplx"] else np.float64, True, solve=False)
-        return ref["overrun"], ref["lastsub"]
+            return ref_gmres(case["A"], B, X0, case["m"], case["tol"], np.complex128 if case["cplx"] else np.float64, flags, solve=False)
     except Exception:
-        return [True] * B.shape[1], [1.0] * B.shape[1]
+        return dict(steps=-1, overrun=[True] * nc, lastsub=[1.0] * nc, masked_genuine=[True] * nc, abs_clip=[True] * nc)
 
 
 def oracle(case, obs, flags):
@@ -175,7 +200,9 @@ def oracle(case, obs, flags):
     A, B = case["A"], case["B"]
     n, nc = B.shape
     m = case["m"]
-    early, lastsub = overrun_columns(case)
+    dg = diagnostics(case, flags)
+    early, lastsub = dg["overrun"], dg["lastsub"]
+    stopped_early = 0 <= dg["steps"] < min(m, n)
     if not obs.get("ok"):
         err = obs.get("err", "")
         if "LinAlgError" in err and ((flags.get("arnoldi_padding") and m > n) or (flags.get("arnoldi_breakdown_continues") and any(early))):
@@ -208,12 +235,19 @@ def oracle(case, obs, flags):
             continue      # the dropped Hessenberg entry H[m, m-1] is not negligible (truncated run, or orthogonality lost)
         if flags.get("arnoldi_breakdown_continues") and early[j]:
             continue
+        if flags.get("gmres_mask_tol") and dg["masked_genuine"][j]:
+            continue      # a genuine column of H is below 10*tol*max|H| and is treated as padding
+        if flags.get("arnoldi_absolute_clip") and dg["abs_clip"][j]:
+            continue      # a remainder of ordinary relative size is below the absolute tol/2: the basis is cut short
         checked += 1
         if not np.all(np.isfinite(X[:, j])):
             bad.append("column %d: non-finite solution" % j)
             continue
         res = float(np.linalg.norm(b - A @ X[:, j]))
-        slack = (1e-6 + 30 * tol * kap) * r0n + floor      # rounding + the accuracy the caller's tol asks of Arnoldi
+        # rounding of the normal equations (cond(H)^2 eps), and - only when Arnoldi stopped before min(m, n) steps because the
+        # remainder fell below tol * ||A q_0|| - the accuracy the caller's tol asks for
+        slack = (1e-6 + 1e-13 * kap * kap + (30 * tol * kap if (stopped_early or early[j]) else 0.0)) * r0n + floor
+        info["excess_worst"] = max(info.get("excess_worst", 0.0), (res - ro) / r0n if r0n > 0 else 0.0)
         info["ratio_worst"] = max(info.get("ratio_worst", 0.0), res / r0n if r0n > 0 else 0.0)
         if res > ro * (1 + 1e-6) + slack:
             bad.append("column %d: residual %.6e exceeds the least-squares optimum %.6e over x0+K_%d (||r0||=%.3e)" % (j, res, ro, m, r0n))
@@ -245,24 +279,37 @@ def _ge_solve(G, b):
     return x
 
 
-def ref_gmres(A, B, X0, m, tol, dtype, square_H=True, solve=True):
-    """Reference recurrence (Arnoldi with MGS and clip, normal equations with padding) in precision `dtype`; used
-    ONLY to decide whether a case is numerically stable enough for a tolerance comparison."""
+PINNED = dict(gmres_square_H=True, arnoldi_padding=True, arnoldi_breakdown_continues=True, gmres_zero_residual_nan=True)
+
+
+def model_flags(flags):
+    """the flag vector the Coq model / the reference recurrence run with (a flag that was never probed counts as repaired)"""
+    return {k: bool(flags.get(k, False)) for k in PINNED}
+
+
+def ref_gmres(A, B, X0, m, tol, dtype, flags, solve=True):
+    """Reference recurrence of arnoldi_fact + gmres_fwd at the given flag vector, in precision `dtype`; used ONLY to decide
+    whether a case is numerically stable enough for a tolerance comparison and to locate the regions recorded defects spoil
+    (it depends on the inputs only, never on cola's output)."""
+    fl = model_flags(flags)
     A, B, X0 = A.astype(dtype), B.astype(dtype), X0.astype(dtype)
     n, nc = B.shape
+    mb = m if fl["arnoldi_padding"] else min(m, n)
     R = B - A @ X0
-    H = np.zeros((nc, m + 1, m), dtype=dtype)
-    Q = np.zeros((nc, n, m + 1), dtype=dtype)
+    H = np.zeros((nc, mb + 1, mb), dtype=dtype)
+    Q = np.zeros((nc, n, mb + 1), dtype=dtype)
     norm = np.sqrt(np.sum((R.conj() * R).real, axis=0))
-    Q[:, :, 0] = (R / norm).T
+    Q[:, :, 0] = (R / (norm if fl["gmres_zero_residual_nan"] else np.where(norm == 0, 1, norm))).T
     cap, idx, margins, decisions = min(m, n), 0, [], []
     overrun = np.zeros(nc, dtype=bool)     # the loop went on after this column's own breakdown / convergence
     done = np.zeros(nc, dtype=bool)
+    min_rel_norm = np.full(nc, np.inf)     # smallest remainder norm relative to ||A q_0|| met while normalising
+    abs_clip = np.zeros(nc, dtype=bool)    # a remainder that is NOT small relative to ||A q_0|| fell under the absolute tol/2
     while True:
         if idx >= cap:
             break
         if idx > 0:
-            ref_ = tol * H[:, 1, 0].real
+            ref_ = tol * (H[:, 1, 0].real if fl["arnoldi_breakdown_continues"] else np.sqrt(np.sum(np.abs(H[:, :, 0]) ** 2, axis=-1)))
             margins.append(float(np.min(np.abs(norm - ref_) / np.maximum(np.abs(ref_), 1e-300))))
             decisions.append((np.array(norm, dtype=np.longdouble), np.array(ref_, dtype=np.longdouble)))
             if not np.any(norm > ref_):
@@ -270,49 +317,66 @@ def ref_gmres(A, B, X0, m, tol, dtype, square_H=True, solve=True):
             done = done | ~(norm > ref_)
         overrun = overrun | done
         new = (A @ Q[:, :, idx].T).T.copy()
-        h = np.zeros((nc, m + 1), dtype=dtype)
+        h = np.zeros((nc, mb + 1), dtype=dtype)
         for j in range(idx + 1):
             h[:, j] = np.sum(np.conj(Q[:, :, j]) * new, axis=-1)
             new = new - h[:, [j]] * Q[:, :, j]
         norm = np.sqrt(np.sum((new.conj() * new).real, axis=-1))
         margins.append(float(np.min(np.abs(norm - tol / 2) / (tol / 2))))
         decisions.append((np.array(norm, dtype=np.longdouble), np.full(nc, tol / 2, dtype=np.longdouble)))
-        done = done | (norm < tol / 2)
-        new = new / np.maximum(norm[:, None], tol / 2.)
+        aq0 = np.sqrt(np.sum(np.abs(h if idx == 0 else H[:, :, 0]) ** 2, axis=-1) + (norm ** 2 if idx == 0 else 0))
+        rel = norm / np.where(aq0 == 0, 1, aq0)
+        abs_clip = abs_clip | ((norm <= tol / 2) & (rel > 1e-6) & ~done)
+        done = done | (norm <= tol / 2)
+        if fl["arnoldi_breakdown_continues"]:
+            new = new / np.maximum(norm[:, None], tol / 2.)
+        else:
+            new = np.where(norm[:, None] > tol / 2., new / np.maximum(norm[:, None], tol / 2.), 0)
         h[:, idx + 1] = norm
         H[:, :, idx] = h
         Q[:, :, idx + 1] = new
         idx += 1
+    sq = fl["gmres_square_H"]
+    Hm = H[:, :-1, :] if sq else H
+    hmax = np.max(np.abs(H.reshape(nc, -1)), axis=1) if mb > 0 else np.ones(nc)
+    lastsub = np.abs(H[:, mb, mb - 1]) / np.where(hmax == 0, 1.0, hmax) if mb > 0 else np.zeros(nc)   # the entry a square H drops
+    # genuine (filled, non-negligible) columns of H that the mask 10*tol*max|H| treats as padding
+    masked_genuine = []
+    for c in range(nc):
+        largest = np.max(np.abs(Hm[c]), -1) if sq else np.max(np.abs(Hm[c]), 0)
+        thresh = 10 * tol * (np.max(largest) if largest.size else 0)
+        colmax = np.max(np.abs(H[c]), 0) if mb > 0 else np.zeros(0)
+        masked_genuine.append(bool(np.any((largest <= thresh)[:idx] & (colmax[:idx] > 1e-13 * (hmax[c] if hmax[c] > 0 else 1)))) if not sq else False)
+    diag = dict(steps=idx, overrun=[bool(v) for v in overrun], lastsub=[float(v) for v in lastsub],
+                masked_genuine=masked_genuine, abs_clip=[bool(v) for v in abs_clip])
     if not solve:
-        hmax = np.max(np.abs(H.reshape(nc, -1)), axis=1) if m > 0 else np.ones(nc)
-        lastsub = np.abs(H[:, m, m - 1]) / np.where(hmax == 0, 1.0, hmax)      # the entry the square H drops
-        return dict(steps=idx, overrun=[bool(v) for v in overrun], lastsub=[float(v) for v in lastsub])
+        return diag
     Qm = Q[:, :, :-1]
-    Hm = H[:, :-1, :] if square_H else H
     beta = np.sqrt(np.sum((R.conj() * R).real, axis=0))
     out = np.zeros_like(B)
     for c in range(nc):
         Hc = Hm[c]
         HT = np.conj(Hc.T)
-        largest = np.max(np.abs(Hc), -1) if square_H else np.max(np.abs(Hc), 0)
+        largest = np.max(np.abs(Hc), -1) if sq else np.max(np.abs(Hc), 0)
         thresh = 10 * tol * np.max(largest)
         margins.append(float(np.min(np.abs(largest - thresh) / max(float(thresh), 1e-300))) if thresh > 0 else 1.0)
         decisions.append((np.array(largest, dtype=np.longdouble), np.full(len(largest), thresh, dtype=np.longdouble)))
-        pad = largest < thresh
+        pad = (largest < thresh) if fl["gmres_zero_residual_nan"] else (largest <= thresh)
         y = _ge_solve(HT @ Hc + np.diag(pad.astype(dtype)), HT[:, 0].copy()) * beta[c]
         y = np.where(pad, 0, y)
         out[:, c] = X0[:, c] + Qm[c] @ y
-    return dict(x=out, steps=idx, min_margin=min(margins) if margins else 1.0, overrun=[bool(v) for v in overrun], decisions=decisions)
+    diag.update(x=out, min_margin=min(margins) if margins else 1.0, decisions=decisions)
+    return diag
 
 
-def stability(case, square_H=True):
+def stability(case, flags):
     cplx = case["cplx"]
     B = case["B"]
     X0 = case["X0"] if case["X0"] is not None else np.zeros_like(B)
     try:
         with np.errstate(all="ignore"):
-            lo = ref_gmres(case["A"], B, X0, case["m"], case["tol"], np.complex128 if cplx else np.float64, square_H)
-            hi = ref_gmres(case["A"], B, X0, case["m"], case["tol"], np.clongdouble if cplx else np.longdouble, square_H)
+            lo = ref_gmres(case["A"], B, X0, case["m"], case["tol"], np.complex128 if cplx else np.float64, flags)
+            hi = ref_gmres(case["A"], B, X0, case["m"], case["tol"], np.clongdouble if cplx else np.longdouble, flags)
     except Exception:
         return dict(same_steps=False, dev_x=np.inf, min_margin=0.0, steps=-1)
     out = dict(same_steps=lo["steps"] == hi["steps"], steps=lo["steps"], min_margin=min(lo["min_margin"], hi["min_margin"]))
